@@ -2,7 +2,7 @@
 # usage: scripts_mut.sh <file> <sed-expr> <govc verify args...>   (scratch worktree at /tmp/mut)
 set -e
 f=$1; sedx=$2; shift 2
-cd /tmp/mut && git checkout -q -- . && git clean -fdq
+cd /tmp/mut && git checkout -q -- . && git clean -fdq && git checkout -q --detach $(git -C /repo rev-parse HEAD)
 for d in lib/uu internal/iobroker internal/hsrv lib/opshell lib/shellfuncsfile lib/simpleshell lib/sstls .; do
   [ -f /repo/$d/zz_contracts_verif.go ] && cp /repo/$d/zz_contracts_verif.go /tmp/mut/$d/ || true
 done
